@@ -32,6 +32,8 @@ type Plan struct {
 	KeyLenOld  int
 	KeyLenNew  int
 	Rotate     bool
+	StartEmpty bool  // nodes are created with an empty keyring; the key is installed at run time (per node, around 1.5 s)
+	KeyAtMs    []int // per node: instant of the first AddKey when StartEmpty
 	UseAtMs    []int // per node: instant of UseKey(new) (AddKey everywhere happens at 4 s)
 	BlockUDP   int   // node whose inbound UDP is cut for a while (indirect pings, nacks, TCP fallback)
 	BlockTCP   bool  // also refuse its streams (so that probes fail completely and suspicion/refutation traffic appears)
@@ -53,6 +55,11 @@ func genPlan(t *rapid.T) Plan {
 	p.UseAtMs = make([]int, p.N)
 	for i := range p.UseAtMs {
 		p.UseAtMs[i] = 6000 + rapid.IntRange(0, 6000).Draw(t, "useat")
+	}
+	p.StartEmpty = rapid.IntRange(0, 3).Draw(t, "startempty") == 0
+	p.KeyAtMs = make([]int, p.N)
+	for i := range p.KeyAtMs {
+		p.KeyAtMs[i] = 1500 + rapid.IntRange(0, 300).Draw(t, "keyat")
 	}
 	p.BlockUDP = rapid.IntRange(1, p.N-1).Draw(t, "block")
 	p.BlockTCP = rapid.Bool().Draw(t, "blocktcp")
@@ -78,7 +85,7 @@ func runPlan(pl Plan) (res vfx.Result) {
 
 type attacker struct{}
 
-func (attacker) OnPacket(*simnet.Endpoint, string, []byte)              {}
+func (attacker) OnPacket(*simnet.Endpoint, string, []byte)             {}
 func (attacker) OnStream(_ *simnet.Endpoint, _ string, c *simnet.Conn) { c.Close() }
 
 func run(pl Plan) (res vfx.Result) {
@@ -99,9 +106,14 @@ func run(pl Plan) (res vfx.Result) {
 	nodes := make([]*cluster.Node, n)
 	useAt := make([]time.Duration, n) // instant at which node i switched its primary key (0 = never)
 	var mu sync.Mutex
+	startKeys := [][]byte{oldKey}
+	if pl.StartEmpty {
+		startKeys = nil
+	}
+	keyAt := make([]time.Duration, n) // instant from which node i must encrypt (0 = from the start)
 	for i := 0; i < n; i++ {
 		nc := puppet.NodeConf{Name: fmt.Sprintf("n%d-%s", i, canary[:12]), IP: fmt.Sprintf("10.0.0.%d", i+1), Port: 7946, ProtocolVersion: pl.PVs[i],
-			Label: pl.Label, Keys: [][]byte{oldKey}, NoCompress: pl.NoCompress, IndirectChecks: 2, ProbeIntervalMs: 500, ProbeTimeoutMs: 150,
+			Label: pl.Label, Keys: startKeys, EmptyKeyring: pl.StartEmpty, NoCompress: pl.NoCompress, IndirectChecks: 2, ProbeIntervalMs: 500, ProbeTimeoutMs: 150,
 			GossipIntervalMs: 100, PushPullMs: 3000, TCPTimeoutMs: 1000, SuspicionMult: 3, WithPing: true,
 			Meta: append([]byte("meta-"), canary...)}
 		nd, err := c.Start(nc)
@@ -128,6 +140,20 @@ func run(pl Plan) (res vfx.Result) {
 			}
 			f()
 		}()
+	}
+	if pl.StartEmpty {
+		for i := range nodes {
+			i := i
+			spawn(time.Duration(pl.KeyAtMs[i])*time.Millisecond, func() {
+				if err := nodes[i].MC.Keyring.AddKey(oldKey); err != nil {
+					panic(err)
+				}
+				mu.Lock()
+				keyAt[i] = c.Net.Now()
+				mu.Unlock()
+			})
+		}
+		labels["key-installed-at-runtime"] = true
 	}
 	// user traffic
 	for s := 0; s < pl.Sends; s++ {
@@ -243,6 +269,15 @@ func run(pl Plan) (res vfx.Result) {
 		}
 		if e.Kind != "pkt" && e.Kind != "pkt-lost" && e.Kind != "swrite" {
 			continue
+		}
+		if pl.StartEmpty {
+			// the obligation starts when the node's keyring holds a key (2 ms of grace around the call)
+			mu.Lock()
+			ka := keyAt[i]
+			mu.Unlock()
+			if ka == 0 || e.T <= ka+2*time.Millisecond {
+				continue
+			}
 		}
 		if bytes.Contains(e.Data, canary) || bytes.Contains(e.Data, canary[:12]) {
 			return fail("%s at %v: %s>%s carries the canary (node name / metadata / user data) in clear: %q", e.Kind, e.T, e.Src, e.Dst, e.Data[:min(len(e.Data), 80)])
